@@ -67,3 +67,104 @@ mk("N13_attrs_and_tracing", [
     ("zlib-rs/src/deflate/algorithm/stored.rs", rep("pub fn deflate_stored(", "#[inline(never)]\npub fn deflate_stored(")),
     ("zlib-rs/src/deflate/sym_buf.rs", rep("    pub(crate) unsafe fn clone_to(&self, ptr: *mut u8) -> Self {\n", "    #[inline]\n    pub(crate) unsafe fn clone_to(&self, ptr: *mut u8) -> Self {\n        debug_assert!(!ptr.is_null());\n")),
 ])
+
+# N14: adler32_combine reduces with `%` instead of conditional subtraction (the abstract interpreter must still prove it)
+mk("N14_adler_combine_rem", [("zlib-rs/src/adler32.rs", rep("""    if sum1 >= BASE {
+        sum1 -= BASE;
+    }
+    if sum1 >= BASE {
+        sum1 -= BASE;
+    }
+    if sum2 >= (BASE << 1) {
+        sum2 -= BASE << 1;
+    }
+    if sum2 >= BASE {
+        sum2 -= BASE;
+    }
+""", """    sum1 %= BASE;
+    sum2 %= BASE;
+"""))])
+
+# N15: gzseek64 clears the read-side state in a different order
+mk("N15_gzseek_clear_order", [(GZ, rep("""        state.have = 0;
+        state.eof = false;
+        state.past = false;
+        state.seek = false;""", """        state.seek = false;
+        state.past = false;
+        state.eof = false;
+        state.have = 0;"""))])
+
+# N16: deflate::end computes its result before releasing
+mk("N16_end_result_first", [(D, rep("""    unsafe { alloc.deallocate(allocation_start.as_ptr(), total_allocation_size) };
+
+    match status {
+        Status::Busy => Err(stream),
+        _ => Ok(stream),
+    }""", """    let busy = matches!(status, Status::Busy);
+    unsafe { alloc.deallocate(allocation_start.as_ptr(), total_allocation_size) };
+
+    if busy {
+        Err(stream)
+    } else {
+        Ok(stream)
+    }"""))])
+
+# N17: flush_bytes takes the header CRC over the slice it just wrote instead of re-reading the pending buffer
+mk("N17_flush_bytes_crc_of_written_slice", [(D, chain(rep("""        state.bit_writer.pending.extend(&bytes[..copy]);
+
+        stream.adler = crc32(
+            stream.adler as u32,
+            &state.bit_writer.pending.pending()[beg..],
+        ) as z_checksum;
+""", """        state.bit_writer.pending.extend(&bytes[..copy]);
+
+        stream.adler = crc32(stream.adler as u32, &bytes[..copy]) as z_checksum;
+"""), rep("""    state.bit_writer.pending.extend(bytes);
+
+    stream.adler = crc32(
+        stream.adler as u32,
+        &state.bit_writer.pending.pending()[beg..],
+    ) as z_checksum;
+""", """    state.bit_writer.pending.extend(bytes);
+
+    stream.adler = crc32(stream.adler as u32, bytes) as z_checksum;
+"""), rep("""    // we'll be using the pending buffer as temporary storage
+    let mut beg = state.bit_writer.pending.pending().len(); /* start of bytes to update crc */
+""", ""), rep("""        beg = 0;
+        bytes = &bytes[copy..];""", """        bytes = &bytes[copy..];""")))])
+
+# N18: copy_match_back spells the byte-wise replication with iterators over indices
+mk("N18_copy_match_back_while", [("zlib-rs/src/inflate/writer.rs", rep("""            _ => {
+                for i in 0..length {
+                    buf[current + i] = buf[current - offset_from_end + i];
+                }
+            }
+        }
+    }
+
+    #[inline(always)]
+    fn copy_chunked_within""", """            _ => {
+                let mut i = 0;
+                while i < length {
+                    buf[current + i] = buf[current - offset_from_end + i];
+                    i += 1;
+                }
+            }
+        }
+    }
+
+    #[inline(always)]
+    fn copy_chunked_within"""))])
+
+# N19: flush_block_only guards the signed offset with an if/else instead of then_some
+mk("N19_flush_block_if_else", [(D, rep("""        (stream.state.block_start >= 0).then_some(stream.state.block_start as usize),""", """        if stream.state.block_start >= 0 {
+            Some(stream.state.block_start as usize)
+        } else {
+            None
+        },"""))])
+
+# N20: fast loop names the refill threshold
+mk("N20_named_refill_threshold", [("zlib-rs/src/inflate.rs", chain(rep("""                if bit_reader.bits_in_buffer() < MAX_BITS + MAX_DIST_EXTRA_BITS {""", """                if bit_reader.bits_in_buffer() < DIST_BITS_NEEDED {"""), rep("""    let extra_safe = false;
+""", """    let extra_safe = false;
+    const DIST_BITS_NEEDED: u8 = MAX_BITS + MAX_DIST_EXTRA_BITS;
+""")))])
